@@ -32,7 +32,19 @@ def split_nl(I, chars):
     return lines, ends
 
 
+# indented multi-line templates ('?' symbolic 1-byte incl. ESC, tab, LF, CR; harness.gen_tmpl)
+IND_TEMPLATES = {
+    'code': '    fn x() {\n  ?   y;\n\n  ? }?\n',
+    'mixed': '\t a\n\t ?b\n \t?c\n',
+    'blank': '  a\n ? \n  ?b',
+    'nbsp': '\u00a0 a?\n\u00a0 ?b\n\u00a0\u2003?',
+    'crlf': '  a?\r\n  ?b\r\n ?\r\n',
+}
+
+
 def gen_ml_text(H, I, cfg, tag='c'):
+    if cfg['gen'] == 'tmpl':
+        return gen_tmpl(I, IND_TEMPLATES[cfg['tmpl']], tag, exclude=())
     if cfg['gen'] == 'alpha':
         return gen_alpha(I, cfg['n'], cfg.get('alphabet', ALPHA), lenvar=True)
     if cfg['gen'] == 'symcls':
@@ -51,7 +63,9 @@ class C19(Harness):
                 {'gen': 'sym1', 'n': 4 if q else 5, 'pmax': 1, 'pgen': 'sym1'},
                 {'gen': 'alpha', 'n': 4 if q else 6, 'pmax': 2, 'pgen': 'alpha'},
                 {'gen': 'symall', 'n': 2 if q else 3, 'pmax': 1, 'pgen': 'symall'},
-                {'gen': 'sym1', 'n': 5 if q else 7, 'pmax': 0, 'pgen': 'sym1'}]
+                {'gen': 'sym1', 'n': 5 if q else 7, 'pmax': 0, 'pgen': 'sym1'}] + \
+            [{'gen': 'tmpl', 'tmpl': t, 'pmax': 1 if q else 2, 'pgen': 'sym1'}
+             for t in ('code', 'mixed', 'blank', 'nbsp', 'crlf')]
 
     def bounds_text(self, tier):
         q = tier == 'quick'
